@@ -52,6 +52,8 @@ FIXED_DATA = [
     {'big': 2 ** 200, 'neg': -10 ** 100, 'f': 1e308, 'tiny': 5e-324, 'z': -0.0, 'e': 1.5e-7, 'i53': 2 ** 53 + 1},
     {'s': 'quote " backslash \\ nl \n tab \t nul \x00 ls \u2028', 'l': [], 'd': {}},
     {'dets': [{'class': 'person', 'rois': [[0.1, 0.25, 0.5, 0.75]], 'conf': 0.987654321}] * 3, 'ok': True},
+    # str values that are not encodable as UTF-8 by themselves: a surrogate-escaped file name (os.fsdecode), a cut pair
+    {'file': 'caf\udce9.mp4', 'cut': 'smile \ud83d', '\udc80key': ['\udfff']},
 ]
 
 
@@ -147,13 +149,20 @@ def build_frame(t):
                 x = Frame(arr, data, fmt)
                 _ = x.jpg                              # a writable frame whose jpg was asked for once ...
                 arr[...] = 255 - arr                   # ... and whose pixels were rewritten afterwards
+                info['px'] = np.array(arr, copy=True, order='C')
+            elif kind == 'rocached' and t['layout'] == 'poked':
+                owner = Frame(arr, None, fmt)          # the producer's reusable render buffer
+                x = Frame(owner.ro, data)              # the read-only frame it hands on ...
+                _ = x.jpg                              # ... encoded once (cached) ...
+                arr[...] = 255 - arr                   # ... before the producer renders the next picture into its buffer
+                info['px'] = np.array(x.image, copy=True, order='C')     # what the frame holds when it is sent
             else:
                 if kind != 'rw':
                     arr.flags.writeable = False
                 x = Frame(arr, data, fmt)
                 if kind == 'rocached':
                     _ = x.jpg                          # read-only image: the encoding is cached in the frame
-            info['px'] = np.array(arr, copy=True, order='C')
+                info['px'] = np.array(arr, copy=True, order='C')
         else:
             jpg = jpg_of(px)
             x = Frame.from_jpg(blob_of(jpg, t['blob']), data, h, w, fmt)
@@ -450,7 +459,7 @@ def concretise(v, vi, combo, r):
     for k, t in enumerate(v['topics']):
         h, w = SIZES[(si + k) % len(SIZES)]
         layout = LAYOUTS[(li + k) % len(LAYOUTS)]
-        if layout == 'poked' and t['kind'] != 'rw':
+        if layout == 'poked' and t['kind'] not in ('rw', 'rocached'):
             layout = 'contig'
         data = {} if t['data'] == 'empty' else (FIXED_DATA[(vi + si + li + k) % len(FIXED_DATA)]
                                                 if (vi + k + li) % 3 else random_data(r))
